@@ -16,7 +16,7 @@ CHECKS = {
         note="Column identity in the model is the printed owner/candidates + name; per-statement edges come from the statement tap, so a mis-analysed statement is C02's problem, not C04's.",
     ),
     "C05": dict(
-        technique="split monitor + combination monitor: scripts assembled from known pieces and separator noise, compared with the pieces analysed alone (statement tap holders folded by the real SQLLineageHolder.of)",
+        technique="split monitor + combination monitor: scripts assembled from known pieces and separator noise, compared with the pieces analysed alone (statement tap holders folded by the real SQLLineageHolder.of); lexer-disagreement noise (nested comments, backslash-ended literals) with sqlfluff's own parse as independent oracle",
         category="exploration",
         text="For thousands of scripts assembled from 1-5 known statements with every separator/noise variant (and tsql no-semicolon mode), statements() must be exactly "
              "the pieces in order and the script's tables, table edges and column pairs must equal the fold of the pieces analysed on their own.",
@@ -67,7 +67,7 @@ CHECKS = {
         note="DROP of an unwired table and tag/self-loop inheritance on RENAME are relational (either outcome accepted); facts come from the statement tap.",
     ),
     "C07": dict(
-        technique="metamorphic monitor: token-level layout/comment/case/quoting/semicolon rewrites driven by sqlfluff's lexer+parser, original vs rewritten statement or multi-statement script run through the real package",
+        technique="metamorphic monitor: token-level layout/comment/case/quoting/semicolon rewrites driven by sqlfluff's lexer+parser, original vs rewritten statement or multi-statement script run through the real package; comment styles asked of each dialect's lexer (--, /* */, # )",
         category="exploration",
         text="Each corpus/TPC-DS statement is rewritten (whitespace, block/line comments containing ; and quotes, comment insertion next to , ( ), upper/lower/swap/mixed case, "
              "identifier quoting, trailing semicolons, combinations; every single boundary in thorough) and tables, table edges and named column pairs must not change.",
@@ -83,7 +83,7 @@ CHECKS = {
         note="All generated local names are unique per statement so one global substitution renames consistently; a new name never equals a relation name visible in the same FROM scope; correlated references are not generated.",
     ),
     "C09": dict(
-        technique="differential monitor across 28 dialects and both analyzers on generated core statements, AST meaning as referee",
+        technique="differential monitor across 28 dialects and both analyzers on generated core statements, AST meaning as referee; the same with a catalog (non-empty provider)",
         category="exploration",
         text="Each generated core statement is analysed under every sqlfluff dialect and the non-validating analyzer; accepting dialects must report identical tables and column pairs, "
              "and the legacy analyzer identical table lineage; a deviating analyzer is judged, the AST's own meaning decides which side deviates.",
@@ -108,7 +108,7 @@ CHECKS = {
         note="Anonymous subquery names are canonicalised from the node's own text; exports compared as sorted node/edge lists without edge ids; path order is compared only when no generated name takes part in it.",
     ),
     "C12": dict(
-        technique="history + session-balance monitors over recorded session events, fault injection at statements/lookups/line events (sys.monitoring), 16-thread stress with yield injection (one reused provider per thread, session store checked after every run)",
+        technique="history + session-balance monitors over recorded session events, fault injection at statements/lookups/line events (sys.monitoring), 16-thread stress with yield injection (one reused provider per thread, session store checked after every run), turn-based schedules of sessions overlapping on one provider",
         category="fault_enumeration",
         text="Run B after a history of runs (failing statement at every position, provider raising at every lookup, InjectedFault at line events inside the run's work) "
              "on default/shared/fresh providers must equal B in a fresh process (also with scratch configuration directories given as file_path); at every return or raise the session tap must balance and the provider must answer as "
@@ -125,7 +125,7 @@ CHECKS = {
         note="The SQLAlchemy provider runs on scratch sqlite files (one fresh set per case); which known table a shared star column is attributed to is left undecided (table level only).",
     ),
     "C14": dict(
-        technique="differential monitor at AST level: unqualified rendering under default schema S vs S-qualified rendering without default, three configuration mechanisms (worker env before import, env after import, scoped override)",
+        technique="differential monitor at AST level: unqualified rendering under default schema S vs S-qualified rendering without default, configuration mechanisms (worker env before import, env after import, scoped override) and in-process histories (closed scope, same text under another schema)",
         category="exploration",
         text="Generated 1-3 statement scripts are rendered twice (unqualified / every unqualified table written S.name) and analysed by the real package under each mechanism and both analyzers; "
              "tables, column pairs and both exports must be equal; with no default every owner prints the placeholder.",
